@@ -6,6 +6,8 @@ namespace Hctl.GlueProto
 open Hctl Hctl.Proto
 
 def decList (s : String) : List Name := if s == "-" then [] else (s.splitOn ",").map decName
+/-- archive requests: `=` is the empty list, `-` the list holding the empty name -/
+def decList0 (s : String) : List Name := if s == "=" then [] else (s.splitOn ",").map decName
 
 def insertSortedName (n : Name) : List Name → List Name
   | [] => [n]
@@ -79,14 +81,14 @@ def convVar (nv : Nat) (seg : List String) : String :=
 def handle? (line : String) : Option String :=
   match words line with
   | ["archnames", labels, formulae] =>
-    let ls := decList labels
-    let fs := decList formulae
+    let ls := decList0 labels
+    let fs := decList0 formulae
     let es := Archive.entries (fun (_ : Unit) => ([] : List Char)) (ls.map (fun l => (l, ()))) [] fs
     let names := es.map (·.1)
     let ftxt := (es.find? (fun e => e.1 == "formulae.txt".toList)).map (·.2) |>.getD []
     some ("set " ++ " ".intercalate (names.map encName) ++ " ; F " ++ encName ftxt)
   | ["archload", names] =>
-    let es := (decList names).map (fun n => (n, ([] : List Char)))
+    let es := (decList0 names).map (fun n => (n, ([] : List Char)))
     let loaded := Archive.load (fun _ => ()) es
     some ("set " ++ " ".intercalate (loaded.map (fun e => encName e.1)))
   | ["loadf", chars] =>
